@@ -48,7 +48,7 @@ def infrastructure_constraints_feasible(
                 return False
     else:
         for j, v in enumerate(infrastructure.constraint_matrix):
-            line_currents = np.abs(v) @ rates
+            line_currents = np.abs(np.abs(v) @ rates)
             if not np.all(
                 line_currents <= infrastructure.constraint_limits[j] + tol[j]
             ):
